@@ -83,23 +83,6 @@ def crc32_wire(data: bytes) -> bytes:
     return crc32_value(data).to_bytes(4, "little")
 
 
-# ---------------------------------------------------------------------------------------------- CRC-9 (B.3.10), informational
-
-CRC9_POLY = 0x059  # x^9+x^6+x^4+x^3+1
-CRC9_MASK = {"1/2": 0x0F0, "3/4": 0x1FF, "1": 0x10F}
-
-
-def crc9_value(rate: str, dbsn: int, block_octets_after_crc9: bytes) -> int:
-    """CRC-9 of a confirmed block: over the block's octets that follow the serial-number/CRC-9 field (for a last block this
-    includes the four CRC-32 octets) followed by the 7-bit DBSN; inverted, then masked."""
-    bits = []
-    for o in block_octets_after_crc9:
-        bits.extend(gf2.int_to_bits(o, 8))
-    bits.extend(gf2.int_to_bits(dbsn, 7))
-    r = gf2.crc_rem(bits, 9, CRC9_POLY)
-    return (r ^ 0x1FF) ^ CRC9_MASK[rate]
-
-
 # ---------------------------------------------------------------------------------------------- preambles
 
 
